@@ -69,6 +69,8 @@ def rnE (ν : Ren) (bs : List Name) : Expr → Expr
   | .matchE e gs => .matchE (rnE ν bs e) (rnGuards ν bs gs)
   | .ifLet g e els => .ifLet (rnGuard ν bs g) (rnE ν bs e) (rnE ν bs els)
   | .listcomp body quals ty => .listcomp (rnE ν (qualBinders quals ++ bs) body) (rnQuals ν bs quals) ty
+  | .range bounds => .range (rnEs ν bs bounds)
+  | .slice a bounds => .slice (rnE ν bs a) (rnEs ν bs bounds)
 def rnEs (ν : Ren) (bs : List Name) : List Expr → List Expr
   | [] => []
   | e :: es => rnE ν bs e :: rnEs ν bs es
@@ -140,9 +142,9 @@ def usesE (bs : List Name) : Expr → List (Name × List Name)
   | .forIn x coll b => usesE bs coll ++ usesE (x :: bs) b
   | .call f args => usesEs bs args ++ usesE bs f
   | .builtin _ args | .arrLit _ args _ | .arrNew args _ | .record _ args | .tuple args
-  | .enumRec _ _ args => usesEs bs args
+  | .enumRec _ _ args | .range args => usesEs bs args
   | .lam (.mk id n ps r body cs) => usesF (if n = "" then bs else n :: bs) (.mk id n ps r body cs)
-  | .index a idx => usesE bs a ++ usesEs bs idx
+  | .index a idx | .slice a idx => usesE bs a ++ usesEs bs idx
   | .field e _ => usesE bs e
   | .matchE e gs => usesE bs e ++ usesGuards bs gs
   | .ifLet g e els => usesE bs e ++ usesGuard bs g ++ usesE bs els
